@@ -103,6 +103,7 @@ func Unmarshal(data []byte, v any) error {
 	defer ds.Put(d)
 	//var d decodeState
 	d.useNumber = true
+	d.scan.bytes = 0
 	err := checkValid(data, &d.scan)
 	if err != nil {
 		return err
@@ -127,6 +128,7 @@ func UnmarshalWithKeys(data []byte, v any) ([]string, error) {
 	defer ds.Put(d)
 	//var d decodeState
 	d.useNumber = true
+	d.scan.bytes = 0
 	err := checkValid(data, &d.scan)
 	if err != nil {
 		return nil, err
@@ -149,6 +151,7 @@ func UnmarshalValid(data []byte, v any) error {
 	defer ds.Put(d)
 	//var d decodeState
 	d.useNumber = true
+	d.scan.bytes = 0
 
 	d.init(data)
 	return d.unmarshal(v)
@@ -163,6 +166,7 @@ func UnmarshalValidWithKeys(data []byte, v any) ([]string, error) {
 	defer ds.Put(d)
 	//var d decodeState
 	d.useNumber = true
+	d.scan.bytes = 0
 
 	d.init(data)
 	err := d.unmarshal(v)
